@@ -51,6 +51,11 @@ func Run(c *hx.Ctx) {
 	if only == "" || only == "h2ga" {
 		initEnv()
 		runH2GoAway(c)
+		runH2GoAwayWin(c)
+	}
+	if only == "" || only == "h1d" {
+		initEnv()
+		runH1Drain(c)
 	}
 	if only == "" || only == "lookup" {
 		initEnv()
